@@ -91,6 +91,15 @@ def graph_init(self: 'Graph', triples: 'optlist', top: 'val', epidata: 'optodict
     requires(triples is None or wf_triples(triples))
     ensures(self.triples == norm_triples(triples if triples is not None else []), label='triples')
     ensures(self._top == top, label='top')
+    # the marker table and the metadata are copied (a missing one is empty)
+    ensures(implies(epidata is not None, dict_keys(self.epidata) == dict_keys(epidata)
+                    and forall_idx(dict_keys(epidata), lambda i, k: dict_get(self.epidata, k) == dict_get(epidata, k))),
+            label='epidata')
+    ensures(implies(epidata is None, len(dict_keys(self.epidata)) == 0), label='epidata-default')
+    ensures(implies(metadata is not None, dict_keys(self.metadata) == dict_keys(metadata)
+                    and forall_idx(dict_keys(metadata), lambda i, k: dict_get(self.metadata, k) == dict_get(metadata, k))),
+            label='metadata')
+    ensures(implies(metadata is None, len(dict_keys(self.metadata)) == 0), label='metadata-default')
     induct('triples', lambda: triples)
 
 
